@@ -160,7 +160,8 @@ Section Reloc.
     pose proof (ws_value_reloc w w' t i m Hw) as Hv.
     destruct (ws_value san sp um w t i m), (ws_value san sp' um w' t i m); simpl in Hv; try contradiction; simpl; auto.
     destruct Hv as (comps & -> & ->).
-    apply IH; auto; cbn [fst snd]; apply tr_sub; auto.
+    apply IH; auto; cbn [fst snd];
+      apply (tr_sub r r' (c_dollar :: c_lpar :: m ++ dot_workspace) comps); auto.
   Qed.
 
   Lemma add_instance_reloc t x comps f params i st st' :
@@ -181,8 +182,9 @@ Section Reloc.
     match goal with |- context [g_add x (Some ?ra) (st_g st)] =>
       match goal with |- context [g_add x (Some ?rb) (st_g st')] =>
         assert (HR : opt_rel (rec_reloc r r') (Some ra) (Some rb)) end end.
-    { simpl. unfold rec_reloc; simpl. rewrite msp_base, msp_base'.
-      repeat split; auto; apply tr_sub; auto. }
+    { unfold opt_rel, rec_reloc; cbn [r_wsc r_ws r_rlimit r_params r_desc r_rest r_deps r_cmd r_restart].
+      rewrite msp_base, msp_base'.
+      repeat split; auto; apply (tr_sub r r' tok_workspace (map san comps)); auto. }
     pose proof (connect_all_rel (rec_reloc r r') parents x _ _
                   (g_add_rel (rec_reloc r r') x _ _ _ _ HR Hg)) as HC.
     destruct (connect_all parents x (g_add x _ (st_g st))),
@@ -247,8 +249,9 @@ Section Reloc.
 
   Lemma init_reloc : st_reloc r r' (init_state sp) (init_state sp').
   Proof.
-    repeat split; simpl; try constructor; simpl; auto.
-    exists []; split; reflexivity.
+    unfold st_reloc, init_state; simpl. split; [|split; auto].
+    - constructor.
+    - constructor; [|constructor]. simpl; split; auto. exists []; split; reflexivity.
   Qed.
 End Reloc.
 
@@ -298,8 +301,8 @@ Proof.
   pose proof (stage_relocatable ap san pi sp r') as H.
   destruct (stage ap san pi sp) as [[um st]|e], (stage ap san pi (set_root r' sp)) as [[um' st']|e'];
     simpl in H; try contradiction; simpl; [|congruence].
-  destruct H as (-> & Hg & _ & _). rewrite !map_map.
-  f_equal; f_equal. symmetry. rewrite <- !map_map. apply (observe_reloc _ _ _ _ Hg).
+  destruct H as (-> & Hg & _ & _).
+  f_equal; f_equal. symmetry. apply (observe_reloc _ _ _ _ Hg).
 Qed.
 
 (** the absolute workspace of every instance is [root/components] for the same
@@ -328,20 +331,90 @@ Proof.
   destruct F as (_ & _ & _ & F). rewrite Hx in F.
   destruct (nd_rec nb) as [rb|]; simpl in F; [|contradiction].
   destruct F as (B1 & B2 & B3 & B4 & B5 & B6 & B7 & B8 & B9 & B10).
-  exists rb; repeat split; auto. rewrite <- B1; auto.
+  exists rb. rewrite B2, B3, B1. repeat split; auto.
 Qed.
 
 (** [txt_reloc] is not the full relation: with equal roots it is equality *)
 Lemma txt_reloc_same r a b : txt_reloc r r a b -> a = b.
 Proof. induction 1; subst; auto. Qed.
 
-(** a text in which none of the substituted tokens occurs is not touched *)
-Lemma replace_go_absent old new x :
-  old <> [] -> occursb old x = false -> replace_go old new x 0 = x.
+(* ------------------------------------------------------------------------ *)
+(** * Submission order and status listing never look at cmd / restart *)
+Lemma find_obs_mask x nodes :
+  find_obs x (map mask_nobs nodes) = option_map mask_nobs (find_obs x nodes).
 Proof.
-  intros Hn; induction x; simpl; auto.
-  intros H; apply orb_false_iff in H as [H1 H2].
-  destruct old; [contradiction|]. simpl in H1. simpl. rewrite H1. f_equal; auto.
+  unfold find_obs; induction nodes as [|o nodes IH]; simpl; auto.
+  destruct (str_eqb x (o_name o)); auto.
+Qed.
+
+Lemma ready_names_mask done nodes :
+  map o_name (filter (ready_now done) (map mask_nobs nodes)) = map o_name (filter (ready_now done) nodes).
+Proof.
+  induction nodes as [|o nodes IH]; simpl; auto.
+  change (ready_now done (mask_nobs o)) with (ready_now done o).
+  destruct (ready_now done o); simpl; rewrite IH; auto.
+Qed.
+
+Lemma dry_polls_mask fuel nodes : forall done,
+  dry_polls fuel (map mask_nobs nodes) done = dry_polls fuel nodes done.
+Proof.
+  induction fuel; intros done; simpl; auto.
+  rewrite ready_names_mask. destruct (map o_name (filter (ready_now done) nodes)); auto.
+  rewrite IHfuel; auto.
+Qed.
+
+Lemma submission_order_mask nodes : submission_order (map mask_nobs nodes) = submission_order nodes.
+Proof. unfold submission_order. rewrite map_length. apply dry_polls_mask. Qed.
+
+Lemma kids_in_mask nodes x : kids_in (map mask_nobs nodes) x = kids_in nodes x.
+Proof. unfold kids_in. rewrite find_obs_mask. destruct (find_obs x nodes); auto. Qed.
+
+Lemma bfs_go_mask fuel nodes : forall q p,
+  bfs_go fuel (map mask_nobs nodes) q p = bfs_go fuel nodes q p.
+Proof.
+  induction fuel; intros q p; simpl; auto.
+  destruct q; auto. rewrite kids_in_mask. apply IHfuel.
+Qed.
+
+Lemma status_rows_mask nodes : status_rows (map mask_nobs nodes) = status_rows nodes.
+Proof.
+  unfold status_rows, status_order. rewrite map_length, bfs_go_mask.
+  apply map_ext; intros x. rewrite find_obs_mask. destruct (find_obs x nodes); auto.
+Qed.
+
+Lemma script_names nodes : map sc_name (scripts_of nodes) = concat (submission_order nodes).
+Proof.
+  unfold scripts_of. rewrite map_map. rewrite <- (map_id (concat (submission_order nodes))) at 2.
+  apply map_ext; intros x. unfold script_of. destruct (find_obs x nodes); auto.
+Qed.
+
+(** the dry-run submission order, the status listing (names, relative
+    workspaces, states, Params column) and the names of the scripts written do
+    not change with the root *)
+Theorem listing_relocatable ap san pi sp r' :
+  let x := c11_model_gen ap san pi sp in
+  let x' := c11_model_gen ap san pi (set_root r' sp) in
+  x_polls x' = x_polls x /\ x_status x' = x_status x
+  /\ map sc_name (x_scripts x') = map sc_name (x_scripts x).
+Proof.
+  unfold c11_model_gen. pose proof (stage_relocatable_obs ap san pi sp r') as H.
+  destruct (observe_result (stage ap san pi sp)) as [o|e],
+           (observe_result (stage ap san pi (set_root r' sp))) as [o'|e']; simpl in H; try discriminate;
+    simpl; auto.
+  inversion H as [[Hu Hn]].
+  rewrite !script_names.
+  rewrite <- (submission_order_mask (ob_nodes o')), <- (submission_order_mask (ob_nodes o)),
+          <- (status_rows_mask (ob_nodes o')), <- (status_rows_mask (ob_nodes o)), Hn; auto.
+Qed.
+
+(** both at once: another admissible oracle AND another root *)
+Theorem stage_reloc_order_free ap san pi pi' sp r' :
+  perm_oracle pi -> perm_oracle pi' ->
+  mask_result (observe_result (stage ap san pi' (set_root r' sp)))
+  = mask_result (observe_result (stage ap san pi sp)).
+Proof.
+  intros Hp Hp'. rewrite (stage_order_free ap san pi' pi (set_root r' sp)); auto.
+  apply stage_relocatable_obs.
 Qed.
 
 (* ------------------------------------------------------------------------ *)
@@ -353,26 +426,26 @@ Definition root_ok (r : str) : bool :=
 Lemma root_ok_snoc r c : plain_comp c = true -> root_ok (r ++ c_slash :: c) = true.
 Proof.
   unfold plain_comp, root_ok; intros H; apply andb_true_iff in H as [H1 H2].
-  destruct c as [|a c]; [discriminate|]. clear H1.
-  rewrite rev_app_distr. simpl rev.
-  destruct (rev c) as [|d l] eqn:E; simpl.
-  - simpl in H2. apply negb_true_iff, orb_false_iff in H2 as [H2 _].
-    rewrite N.eqb_sym; rewrite H2; auto.
-  - assert (Hin : In d (a :: c)).
-    { right. apply in_rev. rewrite E; left; auto. }
-    apply negb_true_iff in H2. rewrite N.eqb_sym.
-    destruct (N.eqb c_slash d) eqn:Ed; auto.
-    exfalso. assert (X : existsb (N.eqb c_slash) (a :: c) = true).
-    { apply existsb_exists; exists d; split; auto. }
-    congruence.
+  destruct (@exists_last _ c) as (c0 & d & ->). { destruct c; [discriminate|congruence]. }
+  replace (r ++ c_slash :: c0 ++ [d]) with ((r ++ c_slash :: c0) ++ [d])
+    by (rewrite <- app_assoc; reflexivity).
+  rewrite rev_app_distr. cbn [rev app].
+  apply negb_true_iff in H2. apply negb_true_iff.
+  destruct (N.eqb d c_slash) eqn:E; auto.
+  apply N.eqb_eq in E; subst d. exfalso.
+  assert (X : existsb (N.eqb c_slash) (c0 ++ [c_slash]) = true).
+  { apply existsb_exists; exists c_slash; split; [apply in_or_app; right; left; auto | apply N.eqb_refl]. }
+  congruence.
 Qed.
 
 Lemma pjoin_plain r c : root_ok r = true -> plain_comp c = true -> pjoin r c = r ++ c_slash :: c.
 Proof.
-  unfold root_ok, plain_comp, pjoin; intros Hr Hc. apply andb_true_iff in Hc as [H1 H2].
+  unfold root_ok, plain_comp; intros Hr Hc. apply andb_true_iff in Hc as [H1 H2].
   destruct c as [|a c]; [discriminate|].
-  simpl in H2. apply negb_true_iff, orb_false_iff in H2 as [H2 _].
-  rewrite N.eqb_sym, H2.
+  assert (Ha : N.eqb a c_slash = false).
+  { destruct (N.eqb a c_slash) eqn:E; auto. apply N.eqb_eq in E; subst a.
+    apply negb_true_iff in H2. cbn [existsb] in H2. rewrite N.eqb_refl in H2. discriminate. }
+  unfold pjoin. rewrite Ha.
   destruct (rev r) as [|d l]; [discriminate|].
   apply negb_true_iff in Hr. rewrite Hr; auto.
 Qed.
